@@ -41,6 +41,12 @@ func (s *c06) Name() string {
 func (s *c06) Build(w *World) {
 	t := w.Tape
 	drawProfile(w)
+	// lock-yield build: in a third of the quiet runs a goroutine may be held before the task queue's lock
+	// acquisitions (a worker giving its slot back after a pause, say); such a goroutine does not count against "quiet"
+	if !s.racing && t.Digest()%3 == 0 {
+		w.EnableLockYields("taskqueue/taskqueue.go")
+		w.Prof.Weights["yield"] = 1 // (held long: the interesting orders are those in which the caller's resume comes first)
+	}
 	s.dag = GenDAG(t, GenCfg{MaxBlocks: 3 + t.Draw(16), MaxDepth: 2 + t.Draw(4), BlockPad: []int{0, 0, 40}[t.Draw(3)], Share: []int{0, 100, 300}[t.Draw(3)], Empty: []int{0, 0, 80}[t.Draw(3)], Alias: []int{0, 0, 100}[t.Draw(3)]})
 	s.sel, s.selDesc = GenSelector(t, 8)
 	s.split = GenSplit(t, s.dag)
@@ -111,7 +117,7 @@ func (s *c06) Build(w *World) {
 				}()
 			}))
 		}
-		if s.paused && !s.resumed && w.Step >= s.pauseStep+s.delay && (s.racing || w.Quiet()) {
+		if s.paused && !s.resumed && w.Step >= s.pauseStep+s.delay && (s.racing || w.QuietBut("yield|lock:taskqueue/taskqueue.go")) {
 			evs = append(evs, Inject("api", "act|"+node.Name+"|r1|unpause", func(string) {
 				s.resumed = true
 				w.Probe("c06-resume:" + s.side + "/" + s.mech)
